@@ -166,6 +166,14 @@ PROBE_EXTRA = [
     ("fr", 'S(Pro("je").pe(\'2\'),VP(V("chanter")))'),
     ("fr", 'NP(D("mon").pe(2).n("p"),N("maison"))'),
     ("fr", 'V("apparaître").t("pc").pe(3).n("p")'),
+    # adverb placement across a relative clause (checkAdverbPos consults the tables of relative pronouns / prepositions)
+    ("fr", 'S(Pro("je").pe(1),VP(V("attendre").t("pc"),NP(D("le"),N("jour"),SP(Pro("où"),VP(V("arriver"),Adv("enfin"),NP(D("le"),N("train")))))))'),
+    ("fr", 'S(Pro("je").pe(3),VP(V("voir").t("pc"),NP(D("le"),N("fille"),SP(Pro("dont"),VP(V("parler"),Adv("souvent"),NP(D("le"),N("voisin")))))))'),
+    ("en", 'S(Pro("I").pe(1),VP(V("see").t("ps").typ({"perf":True}),NP(D("the"),N("girl"),SP(Pro("who"),VP(V("sing"),Adv("often"))))))'),
+    # questions on a prepositional complement (the prefix tables of the rules are read here)
+    ("fr", 'S(Pro("je").pe(3),VP(V("parler"),PP(P("à"),NP(D("le"),N("fille"))))).typ({"int":"woi"})'),
+    ("fr", 'S(Pro("je").pe(3),VP(V("penser"),PP(P("à"),NP(D("le"),N("problème"))))).typ({"int":"wai"})'),
+    ("en", 'S(Pro("I").pe(3),VP(V("speak"),PP(P("to"),NP(D("the"),N("girl"))))).typ({"int":"woi"})'),
 ]
 
 
@@ -590,6 +598,7 @@ def run(ctx, deep=False):
         if bad is None and other_state_differs(res, fr):
             ctx.diff(line, {"other_global_state": "as in the fresh interpreter"},
                      {"other_global_state": "changed", "which": res.get("state_changed")})
+            _G.setdefault("state_diff_histories", []).append(h)
         if bad is None and mlangs != res["langs"]:
             # the language changed where no explicit load stands: the prefix up to that op is a history after which an
             # expression built without load differs from the fresh interpreter's
@@ -616,8 +625,74 @@ def run(ctx, deep=False):
     ctx.notes["probe_realizations"] = len(hists) * len(ps)
 
 
+def big_probe_history(hist):
+    """child: the history, then EVERY corpus expression as a probe (explicit load before each)"""
+    for op in hist:
+        exec_op(op)
+    out = []
+    for e in _G["corpus"]:
+        do_load(e["lang"])
+        with Quiet() as q:
+            try:
+                txt = ev(e["src"]).realize()
+            except Exception as ex:  # noqa
+                txt = "EXC:" + type(ex).__name__
+        out.append([txt, q.nwarn()])
+    return {"big": out, "state": state_fingerprint()[0]}
+
+
+def fork_call(fn, arg):
+    r, w = os.pipe()
+    pid = os.fork()
+    if pid == 0:
+        os.close(r)
+        try:
+            data = json.dumps(fn(arg)).encode()
+        except BaseException as e:  # noqa
+            data = json.dumps({"child_error": repr(e)}).encode()
+        with os.fdopen(w, "wb") as f:
+            f.write(data)
+        os._exit(0)
+    os.close(w)
+    with os.fdopen(r, "rb") as f:
+        data = f.read()
+    os.waitpid(pid, 0)
+    return json.loads(data.decode())
+
+
 def search(ctx):
     run(ctx, deep=True)
+    # histories that leave OTHER global state changed: look for an expression whose text shows it (the whole corpus as probes)
+    hs = sorted(_G.get("state_diff_histories", []), key=len)[:3]
+    if not hs:
+        return
+    fresh = {}
+    for h in hs:
+        mg = mgmt_part(h)
+        key = core.canon(mg)
+        if key not in fresh:
+            fresh[key] = fork_call(big_probe_history, mg)
+        # shortest prefix-free shrink that keeps the state difference
+        cur = list(h)
+        budget = 40
+        i = 0
+        while i < len(cur) and budget > 0:
+            cand = cur[:i] + cur[i + 1:]
+            budget -= 1
+            if core.canon(mgmt_part(cand)) == key and fork_call(big_probe_history, cand).get("state") != fresh[key].get("state"):
+                cur = cand
+            else:
+                i += 1
+        res = fork_call(big_probe_history, cur)
+        if "child_error" in res or "child_error" in fresh[key]:
+            continue
+        for e, a, b in zip(_G["corpus"], res["big"], fresh[key]["big"]):
+            if a != b:
+                ctx.fail("history-dependence:%s|corpus-probe:%s" % (",".join(opsig(o) for o in cur), e["src"].split("(")[0]),
+                         {"history": cur, "probe_lang_src": [e["lang"], e["src"]]},
+                         {"what": "probe", "probe": [e["lang"], e["src"]], "after_history": a, "fresh": b,
+                          "note": "found by realizing the whole corpus after a history that leaves other global state changed"})
+                break
 
 
 def replay(path):
